@@ -1,6 +1,6 @@
 (* C04 — declared forwarding: forwards = embed o mask. *)
 From Sigtools.Model Require Import Base Bind Roles Algebra.
-From Sigtools.Proofs Require Import SmallModel Basics.
+From Sigtools.Proofs Require Import SmallModel Basics Deciders.
 
 Theorem C04_def o i n names0 ha hk uva uvk :
   forwards o i n names0 ha hk uva uvk false =
@@ -21,3 +21,13 @@ Theorem C04_wf o i n names0 ha hk uva uvk p r :
   forwards o i n names0 ha hk uva uvk p = Ok r -> validate (params r) = true.
 Proof. exact (forwards_wf o i n names0 ha hk uva uvk p r). Qed.
 Print Assumptions C04_wf.
+
+(* the wrapper-execution decider (calling the wrapper, which forwards its
+   surplus to inner with n literal positionals and the named keywords) is
+   complete for ALL calls *)
+Theorem C04_exec_sound_decider_complete r o i uva uvk n0 names0 extra :
+  chain_sound_cex r o i uva uvk n0 names0 extra = None ->
+  forall c, noncolliding c r (o :: i :: extra) = true -> accepts r c = true ->
+            chain o i uva uvk n0 names0 c = true.
+Proof. exact (chain_sound_cex_complete r o i uva uvk n0 names0 extra). Qed.
+Print Assumptions C04_exec_sound_decider_complete.
